@@ -684,7 +684,15 @@ class Run(ExtraOps):
         if len(self.cursors) >= 3:
             return
         try:
-            rows = t.rel.engine.execute(t.rel)
+            rows = None
+            if op.get("share"):
+                # a second consumer of the very same executed result object
+                prev = [c for c in self.cursors if c["ent"] is t]
+                if prev:
+                    rows = prev[-1]["rows"]
+                    self.probes["shared_result_cursor"] += 1
+            if rows is None:
+                rows = t.rel.engine.execute(t.rel)
             it = iter(rows)
         except Exception as e:  # noqa
             self.on_exec_exception(t, e)
@@ -745,13 +753,22 @@ class Run(ExtraOps):
         """Once attached, the rows held by an iteration-engine payload never change."""
         p = node.payload
         rows = getattr(p, "rows", None)
-        if rows is None or isinstance(p, SimRows):
+        if isinstance(p, sql.Payload):
+            # a cached SQL payload is a struct the engine must copy before extending (WHERE terms, extra columns)
+            try:
+                h = hashlib.sha1(repr((len(p.where), [str(x) for x in p.where],
+                                       sorted(t.qualified_name for t in p.columns_available),
+                                       getattr(p.from_clause, "name", None))).encode()).hexdigest()[:12]
+            except Exception:
+                return
+        elif rows is None or isinstance(p, SimRows):
             return
-        try:
-            seq = list(rows.values()) if isinstance(rows, dict) else list(rows)
-            h = hashlib.sha1(repr([sorted((t.qualified_name, v) for t, v in r.items()) for r in seq]).encode()).hexdigest()[:12]
-        except Exception:
-            return
+        else:
+            try:
+                seq = list(rows.values()) if isinstance(rows, dict) else list(rows)
+                h = hashlib.sha1(repr([sorted((t.qualified_name, v) for t, v in r.items()) for r in seq]).encode()).hexdigest()[:12]
+            except Exception:
+                return
         k = (id(node), id(p))
         old = self.payload_content.get(k)
         if old is None:
